@@ -158,6 +158,12 @@ func c18reads() []c18route {
 	}
 }
 
+var (
+	c18sharedEnv  *zygo.Zlisp
+	c18sharedSrc  string
+	c18sharedUses int
+)
+
 func c18case(c *engine.Ctx, src string, m c18member, aliasDepth int, route c18route, write string) {
 	// aliasDepth: 0 = path from top; k>0 = an alias bound to the package k levels down (only through packages)
 	if aliasDepth > m.pkgs {
@@ -183,11 +189,27 @@ func c18case(c *engine.Ctx, src string, m c18member, aliasDepth int, route c18ro
 	}
 	w := fmt.Sprintf("%s|%d|%s|%s", strings.Join(m.path, "."), aliasDepth, route.name, write)
 	c.Begin(w)
-	env := zy.New(true)
-	defer env.Close()
-	zygo.VerifSetStepBudget(300000)
-	if r := zy.Eval(env, src); !r.OK() {
-		panic("c18 package source: " + r.String())
+	var env *zygo.Zlisp
+	if write == "" && !c.Replaying && c18sharedEnv != nil && c18sharedSrc == src && c18sharedUses < 400 {
+		// reads do not change the package tree: one interpreter serves a run of read cases (a replay, and every
+		// write, gets a fresh one)
+		env = c18sharedEnv
+		c18sharedUses++
+		zygo.VerifSetStepBudget(300000)
+	} else {
+		env = zy.New(true)
+		zygo.VerifSetStepBudget(300000)
+		if r := zy.Eval(env, src); !r.OK() {
+			panic("c18 package source: " + r.String())
+		}
+		if write == "" && !c.Replaying {
+			if c18sharedEnv != nil {
+				c18sharedEnv.Close()
+			}
+			c18sharedEnv, c18sharedSrc, c18sharedUses = env, src, 0
+		} else {
+			defer env.Close()
+		}
 	}
 	if setup != "" {
 		if r := zy.Eval(env, setup); !r.OK() {
